@@ -461,6 +461,25 @@ def r17_10(prog, rep):
     rep.check(ok, "R17.10", g.qualname, g.loc, "name(obj) is the last dotted component of qualname(obj)", "name() is not the last dotted component of qualname()", detail="name")
 
 
+def typedtuple_is_namedtuple(prog, rep, rule="R17.6"):
+    """A "typed tuple" is a named tuple with annotations -- not any tuple subclass that carries an annotation (a class variable):
+    istypedtuple is interpreted on a tuple subclass descriptor that is annotated but has no `_fields`."""
+    pe = C.PredEval(prog)
+    pe.interpret_origin = True
+    f = prog.functions.get(f"{C.INSP}.istypedtuple")
+    if f is None:
+        rep.undecided(rule, f"{C.INSP}.istypedtuple", "", "predicate not found", detail="typedtuple-is-namedtuple")
+        return
+    plain = C.TypeArg("builtins.tuple", False, (), frozenset({"annotated"}))
+    named = C.TypeArg("builtins.tuple", False, (), frozenset({"annotated", "namedtuple"}))
+    v1 = pe.accepts(("ref", f.qualname), plain)
+    v2 = pe.accepts(("ref", f.qualname), named)
+    if v1 is None or v2 is None or ("raises",) in (v1, v2):
+        rep.undecided(rule, f.qualname, f.loc, f"istypedtuple could not be evaluated on the descriptors ({v1}, {v2})", detail="typedtuple-is-namedtuple")
+        return
+    rep.check(pe.truthy(v2) and not pe.truthy(v1), rule, f.qualname, f.loc, "an annotated named tuple is a typed tuple, an annotated plain tuple subclass is not", "istypedtuple answers from the annotations alone: `class Version(tuple): sep: ClassVar[str] = '.'` counts as a typed tuple and is routed to the structured routine -- unmarshal(Version, [1, 2]) returns () (the members are dropped)", detail="typedtuple-is-namedtuple")
+
+
 def run(prog: Program, rep: Report, tier: str):
     rep.rule("R17.11", "a parameterised scalar spelling (re.Pattern[str]) is served like the bare class", floor=4)
     C.param_spelling_agreement(prog, rep, "R17.11")
@@ -503,3 +522,4 @@ def run(prog: Program, rep: Report, tier: str):
         o.rule = "R17.7"
         rep.obligations.append(o)
         rep.rules["R17.7"]["instances"] += 1
+    typedtuple_is_namedtuple(prog, rep)
